@@ -131,7 +131,7 @@ def run_history(case, sched, rng):
     m.message_order = list(sched)
     pot = CliqueVector({cl: case['facs'][cl].copy() for cl in case['mcl']})
     with np.errstate(all='ignore'):
-        m.belief_propagation(pot); m.belief_propagation(pot, logZ=True)
+        m.belief_propagation(pot, logZ=True); m.belief_propagation(pot)      # the call right before the update has the same arguments as the one right after it
         cl0 = rng.choice(case['mcl'])
         pa, vals = case['pots'][cl0]
         extra = [Fraction(rng.randint(1, 9), rng.randint(1, 9)) for _ in vals]
